@@ -165,6 +165,33 @@ class C14Bounded(Bounded):
                 out0 = f"{type(e).__name__}: {e}"
             if out0 != want0:
                 fail(f"backend with backend and output-format pipelines created with {label} as user pipeline: output {out0!r}, expected {want0!r} (the stages of the two remaining pipelines, nothing skipped)", ["no user pipeline", label])
+        # finalizers run once on the whole output also when no query was emitted (an empty collection; every rule failed)
+        for label, mkcol, kw in (("an empty collection", lambda: SigmaCollection([]), {}),
+                                 ("a collection whose only rule fails", lambda: SigmaCollection.from_yaml(RULE.replace("condition: s1 and s2", "condition: s1 and nope")), {"collect_errors": True})):
+            ev += 1
+            nontriv += 1
+            try:
+                bx = B(make(8), **kw)
+                out_e = bx.convert(mkcol())
+                if label.startswith("a collection") and not bx.errors:
+                    continue          # (the rule text has another condition spelling: nothing failed, nothing to check)
+            except Exception as e:
+                out_e = f"{type(e).__name__}: {e}"
+            if out_e != ["<9(<8(<7()))"]:
+                fail(f"conversion of {label} with three finalizers: output {out_e!r}, expected ['<9(<8(<7()))'] (every finalizer once, in order, on the empty list of queries)", ["empty output", label])
+        # a user pipeline that only carries variables is still the user stage: its variables override the backend pipeline's
+        class B3(TextQueryTestBackend):
+            backend_processing_pipeline = make(7)
+        for label, user in (("variables only", lambda: ProcessingPipeline(vars={"v": "userval"})), ("variables and a name / priority", lambda: ProcessingPipeline(vars={"v": "userval"}, name="u", priority=50)),
+                            ("resolved from two variable-only pipelines", lambda: ProcessingPipelineResolver({"a": ProcessingPipeline(vars={"v": "x"}, priority=1), "b": ProcessingPipeline(vars={"v": "userval"}, priority=2)}).resolve(["a", "b"]))):
+            ev += 1
+            nontriv += 1
+            try:
+                out_v = B3(user()).convert(SigmaCollection.from_yaml(RULE))
+            except Exception as e:
+                out_v = [f"{type(e).__name__}: {e}"]
+            if len(out_v) != 1 or 'f2="userval"' not in str(out_v[0]):
+                fail(f"user pipeline with {label} (v = userval) on a backend whose own pipeline sets v = val7 and expands %v%: {out_v}, expected the user's value in the query", ["vars-only user pipeline", label])
         # the stage order backend, user, output format does not depend on the priorities of the three pipelines (priority orders the
         # pipelines given to the resolver, i.e. inside the user stage)
         for pb, pu, pf in itertools.product((-5, 0, 10), repeat=3):
